@@ -26,6 +26,7 @@ func init() {
 func isOTFunc(name string) bool { return strings.HasPrefix(name, "internal/ot.") }
 
 func runC13(c *Ctx, r *Run) {
+	checkResultsUsed(c, r, "USE-1", 100)
 	checkBitMasks(c, r, "BIT-2")
 	r.Rule("OB-T", "guard inventory over internal/ot: every recorded reject guard (deciding callee + message/state data feeding it) is present and covers acceptance")
 	r.Rule("OT-L", "every slice reached from a message parameter is indexed only under a dominating length guard on the same access path")
